@@ -180,6 +180,8 @@ def print_assumptions(prop_module, theorems):
             m = re.match(r"^([A-Za-z_][\w.]*)\s*:", line)
             if line.strip().startswith("Closed under the global context"):
                 res[cur] = []
+            elif line.strip() == "Axioms:":
+                pass
             elif m and not line.startswith(" "):
                 res[cur].append(m.group(1))
     bad = []
